@@ -63,7 +63,7 @@ func (b *breakingBody) Read(p []byte) (int, error) {
 }
 
 var linkNames = []string{"/ln-dir", "/ln-file", "/ln-abs-dir", "/ln-abs-file", "/dangling", "/dangling-deep", "/dangling-abs", "/loop", "/loop2a", "/ln-null",
-	"/album", "/album/latest", "/album/cover", "/dir/ln-up", "/ln-outside"}
+	"/album", "/album/latest", "/album/cover", "/dir/ln-up", "/ln-outside", "/ln-proc"}
 
 func buildLinkTree(root string) error {
 	os.RemoveAll(root)
@@ -83,6 +83,9 @@ func buildLinkTree(root string) error {
 		{"dangling", "missing-target"}, {"dangling-deep", "no-such-dir/target.txt"}, {"dangling-abs", filepath.Join(root, "no-such-dir", "t")},
 		{"loop", "loop"}, {"loop2a", "loop2b"}, {"loop2b", "loop2a"}, {"ln-null", "/dev/null"},
 		{"album/latest", "../dir"}, {"album/cover", "photo.jpg"}, {"dir/ln-up", ".."}, {"ln-outside", filepath.Dir(root)},
+		// another file system, one that refuses to create anything (ENOENT on
+		// create, EXDEV on rename); only names that do not exist there are used
+		{"ln-proc", "/proc"},
 	}
 	for _, l := range links {
 		if err := os.Symlink(l[1], filepath.Join(root, l[0])); err != nil {
